@@ -20,6 +20,18 @@ class Bound(Exception):
     pass
 
 
+class ForkOn(Exception):
+    """Raised by a model that needs `cond` decided before it can act (and possibly mutate
+    state): exec_call forks the state on cond / not cond and re-runs the call in both."""
+
+    def __init__(self, cond):
+        self.cond = cond
+
+
+class Infeasible(Exception):
+    pass
+
+
 class NeedConcrete(Exception):
     """Raised while evaluating a statement that needs a concrete value for `term`
     (array index, shift amount); exec_path forks over its feasible values."""
@@ -146,6 +158,7 @@ class Frame:
         self.dest = None      # Ref in caller
         self.ret_bb = None
         self.visits = {}
+        self.cont = None      # optional post-processing of the return value (model-initiated calls)
 
 
 class State:
@@ -156,6 +169,8 @@ class State:
         self.steps = 0
         self.formatter_cell = None
         self.strattrs = {}
+        self.divcache = {}
+        self.ovmap = {}
 
     def clone(self):
         return copy.deepcopy(self)
@@ -183,6 +198,7 @@ class Executor:
         self.stubs_used = set()
         self.functions_entered = set()
         self._derived = {}
+        self.overrides = {}
         self.src_root = ""
         self.overflow_checks = True
         self.by_last = {}
@@ -207,6 +223,23 @@ class Executor:
         if r == z3.unknown:
             raise Unsupported("solver returned unknown on a branch feasibility query")
         return r == z3.sat
+
+    def decide(self, st, cond):
+        """Truth value of cond under the path condition; forks (ForkOn) if both are possible."""
+        if is_conc(cond):
+            return bool(cond)
+        c = z3.simplify(cond)
+        if z3.is_true(c):
+            return True
+        if z3.is_false(c):
+            return False
+        t = self.feasible(st.pc, cond)
+        f = self.feasible(st.pc, z3.Not(cond))
+        if t and f:
+            raise ForkOn(cond)
+        if not t and not f:
+            raise Infeasible()
+        return t
 
     def fresh_int(self, ty, name="v"):
         v = z3.Int("%s_%s_%d" % (name, ty, next(self.fresh)))
@@ -537,6 +570,7 @@ class Executor:
                 t = self.fresh_int(ty, "t")
                 st.pc.append(z3.Implies(z3.Not(ov), t == exact))
                 st.pc.append(z3.Implies(ov, t == self.wrap(exact, ty)))
+                st.ovmap[ov.get_id()] = (t, exact, ov)
                 return Struct([t, ov])
             if name.endswith("Unchecked"):
                 return exact
@@ -565,6 +599,17 @@ class Executor:
                 else:
                     b, cb = ub, True
             za, zb = zint(a), zint(b)
+            if cb and b > 0:
+                # unsigned division by a positive constant: one shared (q, r) pair per
+                # dividend with the linear characterisation a = c*q + r, 0 <= r < c
+                key = (za.get_id(), int(b))
+                qr = st.divcache.get(key)
+                if qr is None:
+                    q, r = self.fresh_int(ty, "q"), self.fresh_int(ty, "r")
+                    st.pc.append(z3.And(za == int(b) * q + r, r >= 0, r < int(b), q >= 0))
+                    st.divcache[key] = (q, r, za)   # keep za alive so its id is not reused
+                    qr = st.divcache[key]
+                return qr[0] if base == "Div" else qr[1]
             t = self.fresh_int(ty, "q" if base == "Div" else "r")
             st.pc.append(t == (za / zb if base == "Div" else za % zb))
             return t
@@ -592,6 +637,14 @@ class Executor:
                 for x, c in ((a, b), (b, a)):
                     if is_conc(c) and c >= 0 and (c & (c + 1)) == 0:
                         return zint(x) % (c + 1)
+            if base in ("BitOr", "BitXor") and ty[0] == "u":
+                # (hi << k) | lo with lo < 2^k is hi + lo: try the usual field widths
+                za, zb = zint(a), zint(b)
+                for k in (32, 64, 16, 8):
+                    for x, y in ((za, zb), (zb, za)):
+                        disjoint = z3.And(x % (1 << k) == 0, y >= 0, y < (1 << k))
+                        if not self.feasible(st.pc, z3.Not(disjoint)):
+                            return x + y
             bits = INT_BITS.get(ty)
             if bits is None or ty[0] != "u":
                 raise Unsupported("symbolic bit operation on %s" % ty)
@@ -740,6 +793,8 @@ class Executor:
                 fr.bb, fr.idx = term[1], 0
             elif k == "return":
                 rv = fr.cells.get(0, [Struct([])])[0]
+                if fr.cont is not None:
+                    rv = fr.cont(rv)
                 st.frames.pop()
                 if len(st.frames) < base_depth:
                     pr = PathResult("return", st.pc, rv, notes=st.notes, st=st)
@@ -802,6 +857,10 @@ class Executor:
                     if not can_ok:
                         return
                     st.pc.append(okc)
+                    if neg and v.get_id() in st.ovmap:
+                        # the MIR assert just excluded overflow: give the solver the plain equality
+                        t, exact, _ = st.ovmap[v.get_id()]
+                        st.pc.append(t == exact)
                     fr.bb, fr.idx = targets["success"], 0
             elif k == "call":
                 done = self.exec_call(st, fr, term, work, results)
@@ -905,8 +964,19 @@ class Executor:
             return self.aggregate(st, fr, rv)
         raise Unsupported("rvalue %r in %s" % (rv[:2], fr.fn.name))
 
+    def enum_info(self, ty):
+        t = strip_generics(ty)
+        t = re.sub(r"<.*>$", "", t)
+        segs = split_path(t)
+        if len(segs) >= 2 and "::".join(segs[-2:]) in self.enums:
+            return self.enums["::".join(segs[-2:])]
+        k = enum_key(ty)
+        if k in self.enums.get("__ambiguous", ()):
+            return None
+        return self.enums.get(k)
+
     def discr_value(self, e):
-        info = self.enums.get(enum_key(e.ty))
+        info = self.enum_info(e.ty)
         if info and info.get("discr"):
             return info["discr"][e.variant]
         return e.variant
@@ -925,8 +995,7 @@ class Executor:
             return Opaque("closure", {"path": path, "captures": fields})
         # enum variant?
         if len(segs) >= 2:
-            ek = enum_key("::".join(segs[:-1]))
-            info = self.enums.get(ek)
+            info = self.enum_info("::".join(segs[:-1]))
             if info and last in info["variants"]:
                 return Enum("::".join(segs[:-1]), info["variants"].index(last), fields)
         return Struct(fields)
@@ -943,6 +1012,15 @@ class Executor:
         m = re.fullmatch(r"<(.*) as (?:std::convert::)?Into<(.*)>>::into", func, re.S)
         if m:
             func = "<%s as From<%s>>::from" % (m.group(2), m.group(1))
+        # 0. per-query overrides of crate-local functions (stubs stated in the obligation)
+        for pat, stub in self.overrides.items():
+            if pat in func:
+                self.stubs_used.add("override <- " + func[:90])
+                val = stub(self, st, args)
+                if dest is not None:
+                    dest_ref.set(val)
+                fr.bb, fr.idx = ret_bb, 0
+                return False
         # 1. crate-local function with MIR?
         callee = self.resolve(func, argtys, dest_ty)
         if callee is not None:
@@ -961,8 +1039,27 @@ class Executor:
         if model is None:
             raise Unsupported("call to unmodelled function %s" % func)
         self.stubs_used.add(model.__name__ + " <- " + re.sub(r"\s+", " ", func)[:90])
-        outcomes = model(self, st, func, args, argtys, dest_ty)
-        # outcomes: list of (kind, value, extra_pc)  kind in ret|panic
+        try:
+            outcomes = model(self, st, func, args, argtys, dest_ty)
+        except ForkOn as fo:
+            yes = self.feasible(st.pc, fo.cond)
+            no = self.feasible(st.pc, z3.Not(fo.cond))
+            if yes and no:
+                s2 = st.clone()
+                s2.pc.append(z3.Not(fo.cond))
+                work.append(s2)
+                self.stats["forks"] += 1
+                st.pc.append(fo.cond)
+            elif yes:
+                st.pc.append(fo.cond)
+            elif no:
+                st.pc.append(z3.Not(fo.cond))
+            else:
+                return True
+            return self.exec_call(st, st.frames[-1], term, work, results)
+        except Infeasible:
+            return True
+        # outcomes: list of (kind, value, extra_pc)  kind in ret|panic|call
         live = []
         for kind, val, cond in outcomes:
             if cond is not None and not is_conc(cond):
@@ -987,6 +1084,21 @@ class Executor:
                 results.append(PathResult("panic", s2.pc, msg=str(val) + " in " + fr.fn.name, notes=list(s2.notes), st=s2))
                 continue
             f2 = s2.frames[-1]
+            if kind == "call":
+                # the model asks to run a function/closure body in this same state
+                if s2 is not st:
+                    raise Unsupported("model-initiated call combined with a fork")
+                tfn, targs, tcont = val
+                nf = Frame(tfn)
+                if len(targs) != len(tfn.params):
+                    raise Unsupported("arity mismatch calling %s from a model" % tfn.name)
+                for (pl, pt), a in zip(tfn.params, targs):
+                    nf.cells[pl] = [a]
+                nf.dest = self.place_ref(f2, dest) if dest is not None else None
+                nf.ret_bb, nf.cont = ret_bb, tcont
+                s2.frames.append(nf)
+                cont = s2
+                continue
             if ret_bb is None:
                 raise Unsupported("model returned for diverging call %s" % func)
             if dest is not None:
